@@ -70,13 +70,57 @@ func c14Gen(t *rapid.T, env *core.Env) any {
 	var mainB strings.Builder
 	mainB.WriteString("import \"std/io\";\n")
 	var calls []string
-	withErrors := rapid.IntRange(0, 2).Draw(t, "witherrors") == 0
+	withErrors := rapid.IntRange(0, 3).Draw(t, "witherrors") <= 1
+	// a module is imported by main directly or only by an earlier module (then it is discovered
+	// through that module's parse, at a different depth of the import tree)
+	direct := map[int]bool{}
+	extraImports := map[int][]int{}
 	for m := 1; m <= nm; m++ {
-		mainB.WriteString(fmt.Sprintf("import \"proj/m%d\";\n", m))
+		direct[m] = m == 1 || rapid.IntRange(0, 2).Draw(t, "direct") > 0
+		if !direct[m] {
+			parent := rapid.IntRange(1, m-1).Draw(t, "parent")
+			extraImports[parent] = append(extraImports[parent], m)
+		}
+	}
+	forceParse := map[int]bool{}
+	if withErrors && rapid.Bool().Draw(t, "force_parse_errors") {
+		for m := nm; m >= 2; m-- {
+			if !direct[m] {
+				// the deepest indirect module and one direct module that is not on its import path
+				forceParse[m] = true
+				for d := 1; d <= nm; d++ {
+					if direct[d] && d != m {
+						onPath := false
+						for _, child := range extraImports[d] {
+							onPath = onPath || child == m
+						}
+						if !onPath {
+							forceParse[d] = true
+							break
+						}
+					}
+				}
+				break
+			}
+		}
+	}
+	for m := 1; m <= nm; m++ {
+		if direct[m] {
+			mainB.WriteString(fmt.Sprintf("import \"proj/m%d\";\n", m))
+		}
 		var b strings.Builder
+		for _, child := range extraImports[m] {
+			b.WriteString(fmt.Sprintf("import \"proj/m%d\";\n", child))
+		}
 		// chain imports between modules to make the parse graph non-trivial
 		if m < nm && rapid.Bool().Draw(t, "chain") {
-			b.WriteString(fmt.Sprintf("import \"proj/m%d\";\n", m+1))
+			dup := false
+			for _, child := range extraImports[m] {
+				dup = dup || child == m+1
+			}
+			if !dup {
+				b.WriteString(fmt.Sprintf("import \"proj/m%d\";\n", m+1))
+			}
 		}
 		// occasionally close an import cycle (the circular-import diagnostics must not depend on the schedule either)
 		if m > 1 && rapid.IntRange(0, 11).Draw(t, "cycle") == 0 && env.Use("c14.cycle_diagnostics") {
@@ -87,9 +131,17 @@ func c14Gen(t *rapid.T, env *core.Env) any {
 		for k := 0; k < ni; k++ {
 			it := rapid.IntRange(0, len(c14Items)-1).Draw(t, "item")
 			b.WriteString(c14Subst(c14Items[it], m, k) + "\n")
-			calls = append(calls, fmt.Sprintf("m%d::Get%d_%d()", m, m, k))
+			if direct[m] {
+				calls = append(calls, fmt.Sprintf("m%d::Get%d_%d()", m, m, k))
+			}
 		}
-		if withErrors {
+		if withErrors && forceParse[m] {
+			// a syntax error both in a module that main imports and in one that is only discovered through
+			// another (clean) module: which modules get loaded at all must not depend on who fails first
+			e := []int{2, 3, 6}[rapid.IntRange(0, 2).Draw(t, "parse_err")]
+			b.WriteString(c14Subst(c14Errors[e], m, 90) + "\n")
+			c.NErr++
+		} else if withErrors {
 			ne := rapid.IntRange(0, 6).Draw(t, "nerr")
 			for k := 0; k < ne; k++ {
 				e := rapid.IntRange(0, len(c14Errors)-1).Draw(t, "err")
